@@ -75,3 +75,20 @@ def only_lexer_next_makes_limit_errors(repo):
     if hits or constructed_elsewhere:
         return False, "limit errors are created outside Lexer::next: %s %s" % (hits, constructed_elsewhere)
     return True, "lexer/: Error::limit only in Lexer::next; ErrorData::LimitExceeded only constructed in Error::limit"
+
+
+@frame("file_id_counter_single_fetch_add")
+def file_id_counter_single_fetch_add(repo):
+    """FileId::new touches NEXT by exactly one fetch_add(1, ..); elsewhere NEXT is only stored to in reset()."""
+    sf, mask = _non_test(repo, "crates/apollo-compiler/src/parser.rs")
+    a, b = _fn_span(sf, mask, "fn", "new", "FileId")
+    body = mask[a:b]
+    uses = re.findall(r"\bNEXT\s*\.\s*(\w+)\s*\(", body)
+    if uses != ["fetch_add"] or not re.search(r"NEXT\s*\.\s*fetch_add\s*\(\s*1\s*,", sf.src[a:b]):
+        return False, "FileId::new no longer uses exactly one NEXT.fetch_add(1, ..): %s" % uses
+    all_uses = [(m.group(1), m.start()) for m in re.finditer(r"\bNEXT\s*\.\s*(\w+)\s*\(", mask)]
+    ra, rb = _fn_span(sf, mask, "fn", "reset", "FileId")
+    other = [(u, p) for u, p in all_uses if not (a <= p < b) and not (ra <= p < rb and u == "store")]
+    if other:
+        return False, "NEXT is accessed outside FileId::new/reset: %s" % other
+    return True, "FileId::new reads and advances NEXT with a single atomic fetch_add(1); no other access besides reset()'s store"
